@@ -299,7 +299,7 @@ impl Property for Faults {
                         }
                         let cid = l.args[ci].id.clone();
                         let lv = &mut inv.levels[li];
-                        let pre: usize = lv.occs.iter().position(|o| matches!(o, Occ::Escape)).unwrap_or(lv.occs.len());
+                        let pre: usize = insert_limit(&lv.occs);
                         let at = t.range(0, pre);
                         // never between two occurrences of one positional
                         lv.occs.insert(at, Occ::Flag { arg: cid });
@@ -355,7 +355,7 @@ impl Property for Faults {
                         let d = display_of(a);
                         let lv = &mut inv.levels[li];
                         lv.occs.retain(|o| !matches!(o, Occ::Opt { arg, .. } if *arg == aid));
-                        let pre = lv.occs.iter().position(|o| matches!(o, Occ::Escape)).unwrap_or(lv.occs.len());
+                        let pre = insert_limit(&lv.occs);
                         let at = t.range(0, pre);
                         item.push(d);
                         match fault {
@@ -406,7 +406,7 @@ impl Property for Faults {
                         }
                     }
                     if !done {
-                        let pre = lv.occs.iter().position(|o| matches!(o, Occ::Escape)).unwrap_or(lv.occs.len());
+                        let pre = insert_limit(&lv.occs);
                         lv.occs.insert(
                             pre,
                             Occ::Opt {
@@ -672,6 +672,20 @@ impl Property for Faults {
         }
         Verdict::Pass
     }
+}
+
+/// Injected occurrences go before the escape marker, and never between the marker and a positional occurrence that
+/// continues after it (an occurrence is only continued by `--` while it is still open).
+fn insert_limit(occs: &[Occ]) -> usize {
+    let Some(e) = occs.iter().position(|o| matches!(o, Occ::Escape)) else { return occs.len() };
+    if e >= 1 {
+        if let (Some(Occ::Pos { arg: a, .. }), Some(Occ::Pos { arg: b, .. })) = (occs.get(e - 1), occs.get(e + 1)) {
+            if a == b {
+                return e - 1;
+            }
+        }
+    }
+    e
 }
 
 pub fn check() -> Check {
